@@ -40,7 +40,9 @@ func propC13(run *Run, n int) {
 
 func hostileDiff(r *Rng, cfg GenCfg) string {
 	elems := []string{"K\"61", "K\"62", "K\"", "I0", "I1", "I2", "I-1", "I-2", "I5", "I99999999999", "I-9223372036854775808", "S", "M",
-		"SK { \"6964 #3ff0000000000000 }", "SK { }", "MK { \"6964 #3ff0000000000000 }", "SK { \"61 [r #3ff0000000000000 ] }"}
+		"SK { \"6964 #3ff0000000000000 }", "SK { }", "MK { \"6964 #3ff0000000000000 }", "SK { \"61 [r #3ff0000000000000 ] }",
+		// keyed paths holding null for a key (the second, tolerant pass of the keyed lookup runs when no member matches exactly)
+		"SK { \"6964 N }", "SK { \"61 N \"62 #3ff0000000000000 }", "SK { \"61 #3ff0000000000000 \"7a N }"}
 	nh := 1 + r.Intn(3)
 	hs := []string{}
 	for h := 0; h < nh; h++ {
